@@ -326,3 +326,34 @@ func c10Body(c *ev.Ctx) {
 	c.Set("rule", "synthetic proofs = all combinations (A,B,C) of representative curve points, one per coordinate-length class (32 bytes / 31 bytes / <=30 bytes per coordinate) found among k*G1, k*G2 for k<=N; real proofs from a (1,1) system until coordinates with leading zero bytes occurred; oracle: JSON carries the eight coordinates read from gnark's struct fields in EVM order as 0x-hex, decode(encode(p)) == p field by field, decoded real proofs verify; distinct = classes of short-coordinate patterns")
 	c.Assume("gnark-crypto's raw point encoding and subgroup checks are trusted to materialise the synthetic proofs")
 }
+
+// decodeProofIndependentlyV parses the 8 hex numbers of a proof document without the repository's decoder.
+func decodeProofIndependentlyV(body []byte) (*prover.Proof, error) {
+	var doc struct {
+		Ar  []string   `json:"ar"`
+		Bs  [][]string `json:"bs"`
+		Krs []string   `json:"krs"`
+	}
+	if err := json.Unmarshal(body, &doc); err != nil {
+		return nil, err
+	}
+	if len(doc.Ar) != 2 || len(doc.Krs) != 2 || len(doc.Bs) != 2 || len(doc.Bs[0]) != 2 || len(doc.Bs[1]) != 2 {
+		return nil, fmt.Errorf("proof JSON does not have the ar[2], bs[2][2], krs[2] shape")
+	}
+	raw := make([]byte, 0, 256)
+	for _, s := range []string{doc.Ar[0], doc.Ar[1], doc.Bs[0][0], doc.Bs[0][1], doc.Bs[1][0], doc.Bs[1][1], doc.Krs[0], doc.Krs[1]} {
+		if !strings.HasPrefix(s, "0x") {
+			return nil, fmt.Errorf("coordinate %q is not 0x-hex", s)
+		}
+		v, ok := new(big.Int).SetString(s[2:], 16)
+		if !ok || v.BitLen() > 256 {
+			return nil, fmt.Errorf("coordinate %q is not a 256-bit hex integer", s)
+		}
+		raw = append(raw, v.FillBytes(make([]byte, 32))...)
+	}
+	gp := groth16.NewProof(ecc.BN254)
+	if _, err := gp.ReadFrom(bytes.NewReader(raw)); err != nil {
+		return nil, err
+	}
+	return &prover.Proof{Proof: gp}, nil
+}
